@@ -137,6 +137,14 @@ def plan(ctx):
     return units
 
 
+def unit_cost(unit):
+    if unit[0] != 'cfg':
+        return 0
+    c = unit[1]
+    p = c['params']
+    return len(c['W']) * 3 + 4 * p.get('iters', p.get('maxswap', p.get('itr', 0))) + (6 if c['fn'].startswith('latmio') else 0)
+
+
 def connected_for(fn, M):
     return ss.is_connected(M) if fn in rw.UNDIRECTED else ss.strongly_connected(M)
 
